@@ -8,21 +8,22 @@ oracle         probing(f(ctx…) > x).values() vs the binding log of an independ
 import json
 
 import core
+import m2corr
 import pylite
 import progrun
 import pyprog
 
 
-def expected_events(blog, focus, ctx):
+def expected_events(blog, clog, focus, ctx):
+    """one event per binding of the focus; the other captures with the value they have at that moment (the
+    state of the object then: a list bound earlier may have been extended in place since)"""
     out = []
-    latest = {}
-    for name, value in blog:
-        latest[name] = value
+    for (name, value), now in zip(blog, clog):
         if name == focus:
             ev = {focus: value}
             for c in ctx:
-                if c in latest and c != focus:
-                    ev[c] = latest[c]
+                if c in now and c != focus:
+                    ev[c] = now[c]
             out.append(ev)
     return out
 
@@ -35,6 +36,7 @@ def run_program(chk, fn, src, twin_src, args, script, gscript, stats):
     tmod = progrun.make(twin_src, "verif_c02_twin")
     tres = progrun.drive(tmod, getattr(tmod, fn["name"]), args, script, gscript)
     blog = [(n, v) for n, v in tmod.BLOG]
+    clog = list(tmod.CLOG)
     pyprog.drop_module(tmod)
     rng = chk.rng
     choices = []
@@ -46,15 +48,18 @@ def run_program(chk, fn, src, twin_src, args, script, gscript, stats):
         sel = "%s(%s) > %s" % (fn["name"], ", ".join(ctx), focus) if ctx else "%s > %s" % (fn["name"], focus)
         mod = progrun.make(src, "verif_c02_impl")
         try:
-            with ptera.probing(sel, env=mod.__dict__).values() as evs:
+            got = []
+            probe = ptera.probing(sel, env=mod.__dict__)
+            # the values as they are when the event is delivered (lists can be extended in place later)
+            probe.subscribe(lambda e: got.append({k: progrun.plain(v) for k, v in e.items()}))
+            with probe:
                 res = progrun.drive(mod, getattr(mod, fn["name"]), args, script, gscript)
-            got = [{k: progrun.plain(v) for k, v in e.items()} for e in evs]
         except BaseException as e:  # noqa
             got = "activation/run failed: %s: %s" % (type(e).__name__, str(e)[:100])
             res = None
         finally:
             pyprog.drop_module(mod)
-        want = [{k: progrun.plain(v) for k, v in e.items()} for e in expected_events(blog, focus, ctx)]
+        want = [{k: progrun.plain(v) for k, v in e.items()} for e in expected_events(blog, clog, focus, ctx)]
         stats["selectors"] += 1
         stats["events"] += len(want)
         chk.count(src + sel + json.dumps([args, script, gscript]), nontrivial=len(want) >= 1)
@@ -68,6 +73,8 @@ def run_program(chk, fn, src, twin_src, args, script, gscript, stats):
 
 
 def run(chk):
+    m2corr.ast_leg(chk, 80 if chk.tier == "quick" else 1500)
+    m2corr.exec_leg(chk, 120 if chk.tier == "quick" else 2500)
     rng = chk.rng
     chk.cov["rule"] = (
         "generated functions and generators (same program space as C01) x up to 4 choices of focus variable "
